@@ -11,6 +11,14 @@
 // :reinst / :ab hand the EXISTING plugin object <id> (one that was removed by name or dropped by resetPlugins, with whatever
 // next_ link it was left with) to installPlugin once more.  An object that is in the chain at that moment is not handed over
 // (the chain would become circular; such scenarios are outside the property and the model refuses them).
+// Process level (several runs in ONE process, each with its own command line; the process-wide switches are NOT reset in between):
+//   op    :runnerx <e> <f> <p> <v 0|1|2> <c> <rep> <k> xtest*k   runAllTestsMain with the arguments -e -f -p -v|-vv -c -r<rep> as flagged
+//         | :rethrow <0|1>       UtestShell::setRethrowExceptions(b)
+//         | :crashonfail <0|1>   UtestShell::setCrashOnFail() / UtestShell::restoreDefaultTestTerminator()
+// (:runner <rep> .. is the old form: -e iff a scripted test throws, -r<rep>, and UtestShell::setRethrowExceptions(false) after it.)
+// An exception that leaves runAllTests / runAllTestsMain is caught by the harness: item ":x", the rest of the scenario is not run.
+// The crash method is one that returns (-f would otherwise end the process).  The pool and the event log live in memory shared
+// with forked children (-p), so what a test run in a separate process and its plugins did to them is seen.
 // Plugin ids are creation ordinals (the runner's own pointer plugin takes one too); name a0 is DEF_PLUGIN_SET_POINTER.
 // Observation: per test  ":t <failed> <npre> ids.. <npost> ids.. <pool[0..39]>"  where the id lists leave out the plugins
 // an action of that very test named (whether those were installed / enabled "for that test" the property does not say);
@@ -19,8 +27,14 @@
 #include <stdexcept>
 #include <map>
 #include <set>
+#include <sys/mman.h>
+#include <unistd.h>
 #include "hlib.h"
+#define private public
+#include "CppUTest/Utest.h"
+#undef private
 #include "CppUTest/TestHarness.h"
+#include "CppUTest/PlatformSpecificFunctions.h"
 #include "CppUTest/TestRegistry.h"
 #include "CppUTest/TestOutput.h"
 #include "CppUTest/TestPlugin.h"
@@ -29,13 +43,21 @@
 using namespace hl;
 
 enum { POOL = 40 };
-static void* pool[POOL];
 static const unsigned long long RUNNER_NAME = 0xa0;
 
 // event log: (kind, id)  kind 0 = pre action, 1 = post action, 2 = test object created, 3 = test object destroyed
 struct Ev { int kind; int id; };
-static Ev gLog[8192]; static int gLogN;
+// shared with the children that -p forks: the pointers the tests redirect and the log the plugins write
+struct Shared { void* pool[POOL]; int logN; Ev log[8192]; };
+static Shared* gSh;
+#define pool (gSh->pool)
+#define gLog (gSh->log)
+#define gLogN (gSh->logN)
 static void logEv(int kind, int id) { if (gLogN < 8192) { gLog[gLogN].kind = kind; gLog[gLogN].id = id; gLogN++; } }
+static void crashThatReturns() {}
+static pid_t gMainPid;
+// an exception that leaves a run: in the harness process it is recorded; in a child forked by -p nobody would catch it
+static void escaped(bool& dead) { if (getpid() != gMainPid) _exit(70); dead = true; }
 
 // ------------------------------------------------------------------ the session's registry and plugin objects
 struct Act { int kind; unsigned long long name; int arg; };        // 0 install (arg = plugin kind) 1 remove 2 enable 3 disable 4 reset 5 install an existing object again (arg = id)
@@ -240,7 +262,16 @@ static void parseTest(Toks& t, Script& sc)
 int main()
 {
     Toks t; Out o;
+    gSh = (Shared*)mmap(0, sizeof(Shared), PROT_READ | PROT_WRITE, MAP_SHARED | MAP_ANONYMOUS, -1, 0);
+    if (gSh == (Shared*)MAP_FAILED) { fprintf(stderr, "harness: mmap failed\n"); return 3; }
+    UtestShell::setCrashMethod(crashThatReturns);
+    gMainPid = getpid();
     while (readline(t)) {
+        // every scenario is a process of its own as far as the process-wide switches go
+        UtestShell::setRethrowExceptions(false);
+        UtestShell::restoreDefaultTestTerminator();
+        UtestShell::currentTest_ = 0; UtestShell::testResult_ = 0;
+        bool dead = false;                              // an exception has left a run: the rest of the scenario is not run
         for (int i = 0; i < POOL; i++) pool[i] = (void*)(uintptr_t)(0x100 + i);
         { SetPointerPlugin fresh("fresh"); }            // every scenario starts with an empty table (the constructor resets the index)
         TestRegistry reg;
@@ -248,9 +279,11 @@ int main()
         reg.setCurrentRegistry(&reg);
         gReg = &reg; gObjs.clear(); gNames.clear(); gIds.clear(); gNamed.clear(); gRunnerId = -1;
         std::vector<std::string> out;
-        while (!t.end()) {
+        while (!t.end() && !dead) {
             std::string k = t.sym();
-            if (k == "inst") { Act a; a.kind = 0; a.name = t.u(); a.arg = t.n(); doAct(a); }
+            if (k == "rethrow") UtestShell::setRethrowExceptions(t.n() != 0);
+            else if (k == "crashonfail") { if (t.n() != 0) UtestShell::setCrashOnFail(); else UtestShell::restoreDefaultTestTerminator(); }
+            else if (k == "inst") { Act a; a.kind = 0; a.name = t.u(); a.arg = t.n(); doAct(a); }
             else if (k == "act") {
                 unsigned long long name = t.u(); bool post = t.n() != 0; int n = t.n();
                 std::vector<Act> acts;
@@ -268,7 +301,10 @@ int main()
                 doAct(a);
                 out.push_back(chainItem(false));
             }
-            else if (k == "test" || k == "run" || k == "runner") {
+            else if (k == "test" || k == "run" || k == "runner" || k == "runnerx") {
+                bool legacy = k == "runner";
+                int fe = 0, ff = 0, fp = 0, fv = 0, fc = 0;
+                if (k == "runnerx") { fe = t.n(); ff = t.n(); fp = t.n(); fv = t.n(); fc = t.n(); k = "runner"; }
                 int rep = k == "runner" ? t.n() : 1;
                 int ntests = k == "test" ? 1 : t.n();
                 gThrows = false;
@@ -281,27 +317,40 @@ int main()
                     // the runner's pointer plugin is the next plugin object created: it takes an id
                     gRunnerId = (int)gObjs.size(); addObj(0, RUNNER_NAME);
                     std::vector<std::string> args; args.push_back("harness");
-                    if (gThrows) args.push_back("-e");            // the runner's default is to rethrow what a test throws, which ends the process
+                    if (legacy ? gThrows : fe != 0) args.push_back("-e");   // the runner's default is to rethrow what a test throws
+                    if (ff) args.push_back("-f");
+                    if (fp) args.push_back("-p");
+                    if (fv) args.push_back(fv == 1 ? "-v" : "-vv");
+                    if (fc) args.push_back("-c");
                     if (rep != 1) args.push_back("-r" + std::to_string(rep));
                     std::vector<const char*> av; for (size_t i = 0; i < args.size(); i++) av.push_back(args[i].c_str());
-                    {
+                    try {
                         QuietRunner runner((int)av.size(), &av[0], &reg);
                         runner.runAllTestsMain();
                     }
-                    UtestShell::setRethrowExceptions(false);
+                    catch (...) { escaped(dead); }
+                    if (legacy) UtestShell::setRethrowExceptions(false);
                     if (gObjs[(size_t)gRunnerId]) { gIds.erase(gObjs[(size_t)gRunnerId]); gObjs[(size_t)gRunnerId] = 0; }   // that object is gone
                     gRunnerId = -1;
                 }
                 else {
                     StringBufferTestOutput sink;
                     TestResult result(sink);
-                    reg.runAllTests(result);
+                    try { reg.runAllTests(result); }
+                    catch (...) { escaped(dead); }
+                }
+                if (dead) {
+                    // the exception skipped the bookkeeping of UtestShell::runOneTest's PlatformSpecificSetJmp frame; the registry may
+                    // still point at the runner's plugin object, which is gone
+                    PlatformSpecificRestoreJumpBuffer();
+                    reg.resetPlugins();
                 }
                 for (int i = 0; i < ntests; i++) reg.unDoLastAddTest();
                 for (size_t i = 0; i < gItems.size(); i++) out.push_back(gItems[i]);
                 bool moved = false;             // after the run every pointer still holds what it held after the last test
                 for (int i = 0; i < POOL; i++) if (pool[i] != gPoolAfterTest[i]) moved = true;
-                if (k != "test") out.push_back(chainItem(k == "runner", moved));
+                if (dead) out.push_back(":x");
+                else if (k != "test") out.push_back(chainItem(k == "runner", moved));
                 for (int i = 0; i < ntests; i++) delete shells[(size_t)i];
             }
             else { fprintf(stderr, "harness: bad op %s\n", k.c_str()); exit(3); }
